@@ -28,6 +28,6 @@ theorem N3_SPATIAL_MODULI__C_TAU_JAUMANN (hc : c * c = 2) (h2 : (2:K) ≠ 0)
   have hc0 : c ≠ 0 := c_ne_zero hc h2
   obtain ⟨f00,f01,f02,f10,f11,f12,f20,f21,f22⟩ := F
   obtain ⟨l00,l01,l02,l10,l11,l12,l20,l21,l22⟩ := L
-  c23_rat0 hc
+  c23_rat0c hc
 
 end TfelVerif.C23.PropsN3_SPATIAL_MODULI__C_TAU_JAUMANN
